@@ -96,7 +96,7 @@ CLAIMS = {
         "(ByteEquiv.tla) on the SSB machine for every outcome of every test, plus routine tables; WellFormed is re-checked in the spec. The decompiler's "
         "first step (offsets -> labels) is recorded and refinement-checked on its own (CompilerPipeline.tla, resolver mode; evidence only).",
    ref="§3 C02", technique="TLC model checking of two lock-step products (source semantics x input bytecode, input x recompiled bytecode) on recorded decompiler output",
-   note="bounded families; ten listed known findings (input shapes the decompiler mishandles) are suppressed by shape signature; timeouts/raises/fallbacks belong to C06"),
+   note="bounded families; ten listed known findings (nine shapes, one input hash) (input shapes the decompiler mishandles) are suppressed by shape signature; timeouts/raises/fallbacks belong to C06"),
  "C06": dict(
    text="Every convert() call on the well-formed families of C02 plus hand-built unstructurable graphs is recorded as an outcome trace and "
         "validated by TLC against DecompOutcome.tla (Start->Structured | Start->Abort->Fallback->Recompiled; no Raised action; marker "
